@@ -118,12 +118,13 @@ func runConc(line string, t []string) string {
 		rsp := make([]*httptest.ResponseRecorder, k)
 		var wg sync.WaitGroup
 		barrier := make(chan struct{})
-		for i := range concQueue {
+		queue := concQueue // (a request that never returns must not be looking at the variable the next operation resets)
+		for i := range queue {
 			wg.Add(1)
 			go func(i int) {
 				defer wg.Done()
 				<-barrier
-				rsp[i] = doHTTP(concQueue[i].method, concQueue[i].path, concQueue[i].body)
+				rsp[i] = doHTTP(queue[i].method, queue[i].path, queue[i].body)
 			}(i)
 		}
 		close(barrier)
@@ -271,9 +272,8 @@ var hammerFamilies = map[string][]string{
 	"hammer-refs": {"XSS", "XXSS", "xSS", "XxSC"},
 	// session-map lookups: requests naming unknown references next to creates / releases / updates of the same subscriber
 	"hammer-lookup": {"UCC", "RCC", "URVC", "URSC"},
-	// one-time events next to creates and releases of the same subscriber (no role that sends updates next to E: see
-	// pending_findings/C09-event-close)
-	"hammer-events": {"ECC", "EEC", "ExCC"},
+	// one-time events next to creates, updates and releases of the same subscriber
+	"hammer-events": {"ECC", "EV", "EVS", "ExCS"},
 }
 
 func genHammers(o genOpts, w *bufio.Writer, families ...string) {
@@ -297,8 +297,8 @@ func genHammers(o genOpts, w *bufio.Writer, families ...string) {
 
 // CDR transfer to the billing domain (cgf enabled): requests while the FTP control connection is up, after the billing domain
 // has dropped it, and while the billing domain is unreachable.  One request at a time (deadline of a batch: 20 s): what is
-// looked for is a transfer that blocks its request, and with it every later one.  A stream of its own (-mode cgf), run on the
-// build WITHOUT the race detector: see pending_findings/C09-cgf-unlocked-conn.
+// looked for is a transfer that blocks its request, and with it every later one; then batches of requests of different
+// subscribers in flight together (they share the one FTP control connection).  A stream of its own (-mode cgf), run last.
 func genCgf(o genOpts, w *bufio.Writer) {
 	r := &rng{s: o.seed ^ 0x636766}
 	lsn := 100000
@@ -317,6 +317,23 @@ func genCgf(o genOpts, w *bufio.Writer) {
 		k++
 		one(k, phase)
 		_ = lsn
+	}
+	// requests in flight together while the connection is up, and right after the billing domain dropped it
+	for b := 0; b < 4; b++ {
+		fmt.Fprintf(w, "conc seq reset\n")
+		n := r.pick(3, 4, 5)
+		var sup []string
+		for j := 0; j < n; j++ {
+			sp := fmt.Sprintf("imsi-20899%04d%02d%d", o.seed%10000, b, j)
+			sup = append(sup, sp)
+			fmt.Fprintf(w, "conc seq acct %s 1 %s %s\n", hexOf([]byte(sp)), hexOf([]byte("100000")), hexOf([]byte("2")))
+		}
+		fmt.Fprintf(w, "conc cgf %s\n", []string{"up", "drop", "up", "drop"}[b])
+		for _, sp := range sup {
+			fmt.Fprintf(w, "conc par create %s\n", fmtReq(sp, "smf", 100, 0, 0, 0, nil, nil))
+		}
+		fmt.Fprintf(w, "conc go\n")
+		fmt.Fprintf(w, "conc fu\n")
 	}
 	fmt.Fprintf(w, "conc cgf off\n")
 }
@@ -418,7 +435,7 @@ func genConc(o genOpts, w *bufio.Writer) {
 			}
 		case 5:
 			// one subscriber with an open session: one-time events (with and without usage), further session creates and
-			// the release of the open session together.  (No update in these batches: see pending_findings/C09-event-close.)
+			// updates and the release of the open session together
 			acct(supi, 1, 100000, cost)
 			fmt.Fprintf(w, "conc seq create %s\n", fmtReq(supi, "smf", 100, 0, 0, 0, nil, nil))
 			sid := supi + "smf-0"
@@ -431,12 +448,14 @@ func genConc(o genOpts, w *bufio.Writer) {
 				switch {
 				case j == relAt:
 					fmt.Fprintf(w, "conc par release %s %s\n", hexOf([]byte(sid)), fmtReq(supi, "smf", 100, 9, 0, 0, nil, []string{usage(1, 0, r.pick(5, 20))}))
-				case r.chance(65):
+				case r.chance(55):
 					var us []string
 					if r.chance(50) {
 						us = []string{usage(1, 0, r.pick(1, 7))}
 					}
 					fmt.Fprintf(w, "conc par create %s\n", fmtReq(supi, r.pickStr("smf", "nef"), 200+j, 0, 0, 1, nil, us))
+				case r.chance(40):
+					fmt.Fprintf(w, "conc par update %s %s\n", hexOf([]byte(sid)), fmtReq(supi, "smf", 100, 2+j, 0, 0, nil, []string{usage(1, 100, r.pick(5, 25))}))
 				default:
 					fmt.Fprintf(w, "conc par create %s\n", fmtReq(supi, "smf", 100+j, 0, 0, 0, nil, nil))
 				}
